@@ -42,6 +42,9 @@ pub enum Kind {
     /// `start: "<lit>" ( <ref> | "<txt>" ) "<tail>"` under a *canonical* tokenizer that has tokens gluing `lit` to the
     /// beginning of `txt`: the literal is held back for token healing while the mask is computed
     Alt { lit: String, r: RefSpec, txt: String, tail: String },
+    /// `start: <[a0-a1]> "x" | <[b0-b1]> "y" | "e" "z"`: token ids that belong to two references (or to a reference and
+    /// to text) must keep every alternative they belong to
+    Overlap { a: (u32, u32), b: (u32, u32) },
 }
 
 #[derive(Clone, Debug, Serialize, Deserialize)]
@@ -143,6 +146,63 @@ fn template_grammar(segs: &[Seg], vocab: &Vocab) -> Option<String> {
 fn is_markerish(vocab: &Vocab, t: u32) -> bool {
     let b = vocab.bytes(t);
     b.is_empty() || b[0] == 0xFF
+}
+
+/// Two token-range alternatives and one text alternative over the byte tokens 'a'..'j': after committing token t the
+/// next mask must allow exactly the continuations of every alternative t belongs to.
+fn run_overlap(case: &Case, a: (u32, u32), b: (u32, u32), ctx: &mut Ctx) -> R {
+    let mut vs = case.vocab.clone();
+    vs.canonical = false;
+    let vocab = match vs.build() {
+        Ok(v) => v,
+        Err(_) => return Ok(()),
+    };
+    let g = GrammarSpec::Lark(format!("start: <[{}-{}]> \"x\" | <[{}-{}]> \"y\" | \"e\" \"z\"\n", a.0, a.1, b.0, b.1));
+    let f = factory(&vocab);
+    let m0 = matcher(&f, &g);
+    if m0.is_error() {
+        ctx.class("compile_error");
+        return Ok(());
+    }
+    ctx.class("overlapping_references");
+    let gtxt = g.text();
+    for t in 97u32..=110 {
+        let in_a = a.0 <= t && t <= a.1;
+        let in_b = b.0 <= t && t <= b.1;
+        let in_txt = t == b'e' as u32;
+        let mut m = m0.deep_clone();
+        let mask0 = match m.compute_mask() {
+            Ok(x) => x,
+            Err(_) => return Ok(()),
+        };
+        ctx.eval(1);
+        if mask0.is_allowed(t) != (in_a || in_b || in_txt) {
+            return ctx.fail("C19/reference-position-set-mismatch", || format!("grammar {}: first mask: token {} allowed={} expected {}", gtxt, t, mask0.is_allowed(t), in_a || in_b || in_txt));
+        }
+        if !(in_a || in_b || in_txt) {
+            continue;
+        }
+        if m.consume_token(t).is_err() {
+            return ctx.fail("C19/mask-token-fails-to-commit", || format!("grammar {}: token {} fails to commit", gtxt, t));
+        }
+        let mask = match m.compute_mask() {
+            Ok(x) => x,
+            Err(e) => return ctx.fail("C19/token-in-two-references-follows-one-alternative", || format!("grammar {}: after token {}: mask failed: {}", gtxt, t, short_err(&e.to_string()))),
+        };
+        if (in_a as u8 + in_b as u8 + in_txt as u8) >= 2 {
+            ctx.nontrivial(Fnv::new().str(&gtxt).u64(t as u64).finish());
+        }
+        for (c, want) in [(b'x', in_a), (b'y', in_b), (b'z', in_txt)] {
+            ctx.eval(1);
+            let got = mask.is_allowed(c as u32);
+            if got != want {
+                return ctx.fail("C19/token-in-two-references-follows-one-alternative", || {
+                    format!("grammar {}: after token {} (in first range: {}, in second range: {}, text 'e': {}): {:?} allowed={} expected {}", gtxt, t, in_a, in_b, in_txt, c as char, got, want)
+                });
+            }
+        }
+    }
+    Ok(())
 }
 
 /// Canonical tokenizer, literal followed by (token reference | text): a special / marker token may be in the mask
@@ -254,10 +314,12 @@ impl Prop for C19 {
         ];
         let alt = (prop_oneof![Just("a"), Just("ab"), Just("x<"), Just("é")], refs, prop_oneof![Just("b"), Just("bc"), Just("|>")], prop_oneof![Just("c"), Just(""), Just("<a>")])
             .prop_map(|(lit, r, txt, tail)| Kind::Alt { lit: lit.to_string(), r, txt: txt.to_string(), tail: tail.to_string() });
+        let overlap = (97u32..104, 0u32..6, 97u32..104, 0u32..6).prop_map(|(a, da, b, db)| Kind::Overlap { a: (a, a + da), b: (b, b + db) });
         let kind = prop_oneof![
-            3 => proptest::collection::vec(seg_strategy(), 1..6).prop_map(Kind::Template),
-            2 => textg.prop_map(Kind::Text),
-            1 => alt,
+            6 => proptest::collection::vec(seg_strategy(), 1..6).prop_map(Kind::Template),
+            4 => textg.prop_map(Kind::Text),
+            2 => alt,
+            1 => overlap,
         ];
         (kind, lookalike_vocab(), steps(24)).prop_map(|(kind, vocab, walk)| Case { kind, vocab, walk }).boxed()
     }
@@ -265,6 +327,9 @@ impl Prop for C19 {
     fn run(&self, case: &Case, ctx: &mut Ctx) -> R {
         if let Kind::Alt { lit, r, txt, tail } = &case.kind {
             return run_alt(case, lit, r, txt, tail, ctx);
+        }
+        if let Kind::Overlap { a, b } = &case.kind {
+            return run_overlap(case, *a, *b, ctx);
         }
         let vocab = match case.vocab.build() {
             Ok(v) => v,
@@ -291,7 +356,7 @@ impl Prop for C19 {
         }
 
         let (g, segs): (GrammarSpec, Option<&Vec<Seg>>) = match &case.kind {
-            Kind::Alt { .. } => unreachable!(),
+            Kind::Alt { .. } | Kind::Overlap { .. } => unreachable!(),
             Kind::Template(segs) => match template_grammar(segs, &vocab) {
                 Some(t) => (GrammarSpec::Lark(t), Some(segs)),
                 None => return Ok(()),
